@@ -7,7 +7,7 @@ mod verif_c06 {
 
     /// to_slice_cobs(v) == standard COBS of the plain encoding ++ [0]; exactly one zero (the last); decodes back
     #[kani::proof]
-    #[kani::unwind(12)]
+    #[kani::unwind(11)]
     fn api_small() {
         let v: PE = kani::any();
         let mut plain = [0u8; 8];
@@ -89,7 +89,7 @@ mod verif_c06 {
     /// several frames back to back: each call returns the value and exactly the bytes after its frame,
     /// whether or not the last frame's sentinel is present
     #[kani::proof]
-    #[kani::unwind(12)]
+    #[kani::unwind(9)]
     fn frames() {
         let a: PTup = kani::any();
         let b: PTup = kani::any();
